@@ -166,39 +166,31 @@ def check(ctx):
     for n in ast.walk(fa.node):
         if isinstance(n, ast.Assign) and len(n.targets) == 1 and isinstance(n.targets[0], ast.Name):
             names[n.targets[0].id] = norm_text(n.value)
+    ita = ctx.entry(fa.qualname)
     for n in divs:
-        rt = norm_text(n.right)
-        rt = names.get(rt, rt)
-        ok = rt == 'self.n_floating' and norm_text(n.left) == 'sum(v)'
-        ctx.ob('R3', fa, n, True if ok else (False if norm_text(n.left) == 'sum(v)' else None),
+        rt = ita.sx(n.right)
+        is_sum = isinstance(n.left, ast.Call) and norm_text(n.left.func) == 'sum' and len(n.left.args) == 1
+        ok = rt == 'self.n_floating' and is_sum
+        ctx.ob('R3', fa, n, True if ok else (False if is_sum else None),
                'summed site occupancies divided by the number of diffusing atoms' if ok else f'divided by {rt}')
-    # label counter
+    # label counter: a counting dict keyed by (label of the origin, label of the destination) that adds the counts up
     fc = ctx.fn(f'{JU}.counter')
-    n_acc = 0
-    for n in ast.walk(fc.node):
-        if isinstance(n, ast.DictComp) and 'labels[' in norm_text(n.key):
-            n_acc += 1
-            ctx.ob('R3', fc, n, False, 'label pairs are not unique per index pair (several sites share a label): a dict comprehension keeps only '
-                                       'the last index pair of every label pair instead of adding the counts up')
-        if isinstance(n, ast.Assign) and len(n.targets) == 1 and isinstance(n.targets[0], ast.Subscript) and 'labels[' in norm_text(n.targets[0].slice):
-            n_acc += 1
-            ctx.ob('R3', fc, n, False, 'counts of index pairs that share a label pair overwrite each other instead of adding up')
-        if isinstance(n, ast.AugAssign) and isinstance(n.target, ast.Subscript) and 'labels[' in norm_text(n.target.slice):
-            n_acc += 1
-    if n_acc == 0:
-        ctx.ob('R3', fc, 'label counter', None, 'aggregation of the index counter by labels not recognised')
-    for n in ast.walk(fc.node):
-        if isinstance(n, ast.For) and isinstance(n.target, ast.Tuple):
-            tgt = norm_text(n.target)
-            for s in ast.walk(n):
-                if isinstance(s, ast.AugAssign) and isinstance(s.target, ast.Subscript):
-                    key = norm_text(s.target.slice).replace(' ', '')
-                    pair = norm_text(n.target.elts[0]).strip('()').replace(' ', '').split(',') if isinstance(n.target.elts[0], ast.Tuple) else None
-                    ok = pair is not None and key in (f'labels[{pair[0]}],labels[{pair[1]}]', f'(labels[{pair[0]}],labels[{pair[1]}])') \
-                        and isinstance(s.op, ast.Add) and norm_text(s.value) == norm_text(n.target.elts[1]) and '_counter()' in norm_text(n.iter)
-                    ctx.ob('R3', fc, s, True if ok else (False if pair is not None else None),
-                           'label pair (origin, destination) accumulates the index-pair counts' if ok else
-                           'the label counter does not accumulate counts under (label of origin, label of destination)')
+    rc = results[(JU, 'counter')][0]
+    ke = rc.keyelem if rc is not None else None
+    if rc is None or rc.ty != 'dict' or ke is None or ke.elts is None or len(ke.elts) != 2:
+        ctx.ob('R3', fc, 'label counter', None, 'aggregation of the jumps by site labels not recognised')
+    else:
+        cols = [(e.of_index.col if e.of_index is not None else None) for e in ke.elts]
+        if not all(e.label for e in ke.elts) or None in cols:
+            ctx.ob('R3', fc, 'label counter', None, 'keys of the label counter are not recognised as site labels of jump sites')
+        elif cols != ['start site', 'destination site']:
+            ctx.ob('R3', fc, 'label counter', False, f'the label counter is keyed by the labels of ({cols[0]}, {cols[1]}) instead of (origin, destination)')
+        elif rc.overwrite:
+            ctx.ob('R3', fc, 'label counter', False, 'label pairs are not unique per index pair (several sites share a label): counts of index pairs '
+                                                      'that share a label pair overwrite each other instead of adding up')
+        else:
+            ctx.ob('R3', fc, 'label counter', True if rc.accum else None,
+                   'label pair (origin, destination) accumulates the jump counts' if rc.accum else 'accumulation of the counts not recognised')
 
     # the matrices count the right table
     for cls, attr, what in ((JU, 'data', 'jumps'), (TR, 'events', 'transition events')):
